@@ -66,6 +66,42 @@ Example C10_partial_fragment_inhabited :
 Proof. exact fragment_inhabited. Qed.
 Print Assumptions C10_partial_fragment_inhabited.
 
+(* ------------------------------------------------------------------ vmap: REDUCTION-type batch rules (softmax, standardize) *)
+(* an axis-parameterised primitive = a kernel applied to the fibers along the axes; the only hypothesis is kernel_ext *)
+(* current standardize rule (910bb71): move the batch axis to the front, shift the canonical axes past it, bind on the batched array *)
+Theorem C10_reduce_rule_correct : forall (A : Type) (k : kernel A) axes (x : tensor A) d,
+  kernel_ext k -> d < rank x ->
+  teq (front (snd (reduce_rule k axes x d)) (fst (reduce_rule k axes x d))) (vmap_spec1 (prim_axes k axes) x d).
+Proof. exact @reduce_rule_correct. Qed.
+Print Assumptions C10_reduce_rule_correct.
+
+(* current softmax rule (c86dca6): canonicalise against the per-example rank, move to front, vmap the original *)
+Theorem C10_softmax_rule_correct : forall (A : Type) (k : kernel A) a (x : tensor A) d,
+  d < rank x ->
+  teq (front (snd (softmax_rule k a x d)) (fst (softmax_rule k a x d))) (vmap_spec1 (prim_axes k [a]) x d).
+Proof. exact @softmax_rule_correct. Qed.
+Print Assumptions C10_softmax_rule_correct.
+
+(* HISTORY: the old softmax axis arithmetic was right exactly on this set of (axis, batch dim) *)
+Theorem C10_softmax_old_axis_iff : forall r a d, axis_valid r a -> d <= r ->
+  let p := canon r a in
+  softmax_body_axis_old (S r) a d = p <->
+  ((a < 0)%Z /\ (d <= p \/ (p = 0 /\ d = 1))) \/ ((0 <= a)%Z /\ (p < d \/ (p = 0 /\ d = 0))).
+Proof. exact softmax_old_axis_iff. Qed.
+Print Assumptions C10_softmax_old_axis_iff.
+
+(* HISTORY: the unary elementwise rule standardize used to register is not vmap for a reduction *)
+Theorem C10_reduce_elementwise_rule_refuted :
+  ~ teq (front (snd (reduce_elementwise_rule kz [1%Z] wr 0)) (fst (reduce_elementwise_rule kz [1%Z] wr 0)))
+        (vmap_spec1 (prim_axes kz [1%Z]) wr 0).
+Proof. exact reduce_elementwise_rule_refuted. Qed.
+Print Assumptions C10_reduce_elementwise_rule_refuted.
+
+(* non-vacuity: the integer kernel used by the differential tie satisfies the hypothesis *)
+Theorem C10_kernel_hypothesis_inhabited : kernel_ext kz.
+Proof. exact kz_ext. Qed.
+Print Assumptions C10_kernel_hypothesis_inhabited.
+
 (* ------------------------------------------------------------------ jit / nested jit / custom_jvp / custom_vjp / checkpoint *)
 Theorem C10_alpha_inline_ok : forall rho reg bi body bo c e,
   injective rho -> reg_equivariant rho reg -> ren_ctx rho c = c -> ren_eqn rho e = e ->
